@@ -147,9 +147,11 @@ byes_kwargs: set[str] = {"minLength", "maxLength"}
 
 def pattern_literal(pattern: str) -> str:
     """Source text of a string literal that evaluates to `pattern`: `r'...'` when that reads back
-    unchanged (no quote, no control character, no dangling backslash), else `repr()`."""
+    unchanged (no quote, no dangling backslash, only printable characters: control characters and the
+    non-ASCII line boundaries U+0085 / U+2028 / U+2029, at which formatters split the text, are left
+    to `repr()`), else `repr()`."""
     dangling_backslash = (len(pattern) - len(pattern.rstrip("\\"))) % 2
-    if "'" in pattern or dangling_backslash or any(ord(c) < 32 or ord(c) == 127 for c in pattern):  # noqa: PLR2004
+    if "'" in pattern or dangling_backslash or not pattern.isprintable():
         return repr(pattern)
     return f"r'{pattern}'"
 
